@@ -27,8 +27,10 @@ def main():
     patch = os.path.join(outdir, "patch%s.diff" % n)
     demo = os.path.join(outdir, "demo%s_test.go" % n)
     first = open(demo).readline()
-    m = re.search(r"[Gg]oes into\s+(\S+)", first) or re.search(r"package dir(?:ectory)?:?\s*(\S+)", first)
+    m = re.search(r"\./([A-Za-z0-9_/.-]*)/?\s*$", first.strip()) or re.search(r"[Gg]oes into\s+(?:package directory\s+)?(\S+)", first)
     pkgdir = m.group(1).strip("/;,") if m else "."
+    if pkgdir == "":
+        pkgdir = "."
     if pkgdir in ("the", "repo", "root"):
         pkgdir = "."
     m = re.search(r"-run\s+'?\"?([A-Za-z0-9_|^$]+)", first)
